@@ -34,15 +34,16 @@ def tree_hash():
 
 
 def cache_dir(tag="default"):
-    """Per-tree cache dir; old trees' caches are pruned (keep the 2 most recent)."""
+    """Per-tree cache dir; caches of other trees are pruned only when they have not been touched for six hours
+    (a concurrent run on another tree, e.g. a seeded shadow tree, may be loading modules from them)."""
     d = CACHE_ROOT / tree_hash() / tag
     if not d.exists():
         d.mkdir(parents=True, exist_ok=True)
         try:
-            olds = sorted([p for p in CACHE_ROOT.iterdir() if p.is_dir() and p.name != tree_hash()],
-                          key=lambda p: p.stat().st_mtime)
-            for p in olds[:-1]:
-                shutil.rmtree(p, ignore_errors=True)
+            now = time.time()
+            for p in CACHE_ROOT.iterdir():
+                if p.is_dir() and p.name != tree_hash() and now - max(q.stat().st_mtime for q in [p, *p.iterdir()]) > 6 * 3600:
+                    shutil.rmtree(p, ignore_errors=True)
         except Exception:
             pass
     return d
